@@ -238,7 +238,7 @@ void Kernel::actor_write(End *e, const std::string &data, std::vector<int> fds) 
   e->bytes_out += data.size();
   change_gen++;
   // coalesce with the previous segment when neither carries descriptors
-  if (!p->rx.empty() && s.fds.empty())
+  if (!p->rx.empty() && s.fds.empty() && p->rx.back().fds.empty())
     p->rx.back().data += s.data;
   else
     p->rx.push_back(std::move(s));
@@ -373,8 +373,10 @@ static ssize_t stream_read(Kernel::FdEntry *f, struct iovec *iov, int iovcnt, vo
     else if (fault(K->io.short_read_pct, "short_read")) limit = 1 + K->io_rng.below(limit - 1);
   }
   (void)avail;
-  // descriptors riding on the first segment
-  if (!s.fds.empty()) {
+  // Linux: a read may run from plain segments into the next segment that carries descriptors, delivers those
+  // descriptors with that segment's first byte, and stops after that segment (checked by build/simconf)
+  bool took_fds = false;
+  auto deliver_fds = [&](Seg &s) {
     size_t space = (control && controllen) ? *controllen : 0;
     size_t maxfds = space >= CMSG_LEN(0) ? (space - CMSG_LEN(0)) / sizeof(int) : 0;
     size_t nfds = std::min(maxfds, s.fds.size());
@@ -401,21 +403,21 @@ static ssize_t stream_read(Kernel::FdEntry *f, struct iovec *iov, int iovcnt, vo
       *controllen = 0;
     }
     if (nfds < s.fds.size()) {
-      // surplus is discarded by the kernel, MSG_CTRUNC set
+      // surplus is discarded by the kernel, MSG_CTRUNC set (without any control buffer - a plain read - silently)
       for (size_t i = nfds; i < s.fds.size(); i++) __real_close(s.fds[i]);
-      if (msg_flags) *msg_flags |= MSG_CTRUNC;
-      K->count_fault("ctrunc");
+      if (msg_flags && control) *msg_flags |= MSG_CTRUNC;
+      if (control) K->count_fault("ctrunc");
     }
     s.fds.clear();
-  } else if (controllen) {
-    *controllen = 0;
-  }
-  // copy bytes; never cross into a following segment that carries descriptors
+    took_fds = true;
+  };
+  (void)s;
   size_t done = 0;
   int vi = 0; size_t voff = 0;
   while (done < limit && !e->rx.empty()) {
     Seg &cur = e->rx.front();
-    if (done > 0 && !cur.fds.empty()) break;
+    bool fd_segment = !cur.fds.empty();
+    if (fd_segment) deliver_fds(cur);
     size_t take = std::min(limit - done, cur.data.size());
     size_t copied = 0;
     while (copied < take) {
@@ -428,7 +430,9 @@ static ssize_t stream_read(Kernel::FdEntry *f, struct iovec *iov, int iovcnt, vo
     e->rx_bytes -= take;
     done += take;
     if (cur.data.empty()) e->rx.pop_front();
+    if (fd_segment) break;
   }
+  if (!took_fds && controllen) *controllen = 0;
   e->bytes_in += done;
   if (e->peer) e->peer->peer_consumed += done;
   K->stats.bytes_sut_read += done;
@@ -478,7 +482,7 @@ static ssize_t stream_write(Kernel::FdEntry *f, const struct iovec *iov, int iov
   }
   p->rx_bytes += n;
   K->change_gen++;
-  if (!p->rx.empty() && s.fds.empty()) p->rx.back().data += s.data;
+  if (!p->rx.empty() && s.fds.empty() && p->rx.back().fds.empty()) p->rx.back().data += s.data;
   else p->rx.push_back(std::move(s));
   e->bytes_out += n;
   K->stats.bytes_sut_written += n;
@@ -842,10 +846,11 @@ int __wrap_poll(struct pollfd *fds, nfds_t n, int timeout) {
         struct pollfd one = fds[i];
         if (__real_poll(&one, 1, 0) > 0) fds[i].revents = one.revents;
       } else {
-        if ((fds[i].events & POLLIN) && K->readable(*f)) fds[i].revents |= POLLIN;
+        bool pipe_eof = f->kind == Kernel::FdEntry::STREAM && f->end->is_pipe && f->end->rx_bytes == 0;   // Linux: a drained pipe whose writer is gone reports HUP only
+        if ((fds[i].events & POLLIN) && K->readable(*f) && !pipe_eof) fds[i].revents |= POLLIN;
         if ((fds[i].events & POLLOUT) && K->writable(*f)) fds[i].revents |= POLLOUT;
         if (K->hup(*f)) fds[i].revents |= POLLHUP;
-        if (f->kind == Kernel::FdEntry::STREAM && f->end->peer_gone && (fds[i].events & POLLOUT)) fds[i].revents |= POLLERR;
+        if (f->kind == Kernel::FdEntry::STREAM && f->end->reset) fds[i].revents |= POLLERR;   // the peer closed without reading what we sent
       }
       if (fds[i].revents) ready++;
     }
